@@ -50,6 +50,8 @@ LmsOf(cfg, d) ==
    ELSE IF cfg = 9 THEN << <<"zeta", Bare("PointCloud", LmA(d))>>, <<"alpha", Bare("PointUndirectedGraph", LmB(d))>> >>
    \* 11 = a group WITHOUT points listed first (legal: annotations not made yet), then an ordinary one
    ELSE IF cfg = 11 THEN << <<"unannotated", Bare("PointCloud", <<>>)>>, <<"zeta", Bare("PointCloud", LmA(d))>> >>
+   \* 12 = nothing but a group without points (still a group: it has a name and a dimensionality that follows the owner's)
+   ELSE IF cfg = 12 THEN << <<"none_visible", Bare("PointCloud", <<>>)>> >>
    ELSE << <<"nested", [Bare("TriMesh", LmA(d)) EXCEPT !.lms = << <<"inner", Bare("PointCloud", LmB(d))>> >>]>> >>
 ShapeOf(cls, d, cfg) == [Bare(cls, PtsOf(d)) EXCEPT !.lms = LmsOf(cfg, d)]
 \* ---- transforms used by `apply` ------------------------------------------------------------------
